@@ -14,17 +14,19 @@ PROP = dict(
     ],
     assumptions=[
         "result trees up to depth 4 (quick 3), tuples <= 5 attributes, arrays <= 4 items with holes strictly inside and "
-        "offsets in {-3..17}, dictionaries <= 9 keys (numbers, strings, tuples); layouts up to 4 directory levels",
+        "offsets in {-3..17}, dictionaries <= 9 keys (numbers, strings, tuples) with up to 3 values under one key "
+        "(unions of dict literals / sets of (@, @value) tuples; values under one key are of different classes); "
+        "layouts up to 4 directory levels",
         "display-only parts of the report (alignment, colours, wall time, messages) are not modelled",
         "attribute names that are empty or start with '.' are outside the path-rendering theorem (known finding "
         "KF-c20-dotted-attr-name); the verdict/count theorems hold for them too",
         "unparseable test files are generated only with sources whose parse error is cheap to format (a syntax error at "
         "end of input makes wbnf's ParseError.Error take ~30 s; out of scope here)",
     ],
-    level_text="Proof: 19 Lean theorems about a transliteration of pkg/test (ForeachLeaf as repaired, isLiteralTrue/False, RunExpr, "
+    level_text="Proof: 22 Lean theorems about a transliteration of pkg/test (ForeachLeaf as repaired, isLiteralTrue/False, RunExpr, "
                "runFile, getTestFiles' walk, the loop of RunTests, calcStats, Report's verdict) - for every result tree (any nesting "
                "of tuples/arrays/dicts, sparse and offset arrays, sets/relations as leaves) ForeachLeaf reports exactly the specified "
-               "leaves, each once under its rendered path; for every directory layout the walk finds exactly the *_test.arrai files "
+               "leaves, each once under its rendered path (every (key, value) pair of a dictionary with repeated keys is a member: the multiset of reported (name, leaf) pairs is the specified one); for every directory layout the walk finds exactly the *_test.arrai files "
                "outside hidden directories; the run passes iff there is a test file, every test file compiles/evaluates and every leaf "
                "is the literal true; counts add up to the number of leaves (ignored is never produced by RunTests and never fails a "
                "run); any false/non-boolean/unevaluable leaf or uncompilable file fails the run. Tied to the repo by running "
